@@ -10,8 +10,12 @@ use serde_json::json;
 use std::sync::atomic::{AtomicU64, Ordering};
 
 const P: &str = "C06";
-pub fn num_alts() -> Vec<Nat> { vec![Nat::zero(), Nat::from_u64(0x7f), Nat::from_u64(0x80), Nat::from_u64(0xff), Nat::from_u64(0x100), Nat::pow2(64), Nat::pow2(255), Nat::pow2(256).sub(&Nat::from_u64(1))] }
-pub fn chain_alts() -> Vec<Nat> { vec![Nat::zero(), Nat::from_u64(1), Nat::from_u64(0x7f), Nat::from_u64(0x80), Nat::pow2(32), Nat::pow2(64).sub(&Nat::from_u64(1)), Nat::pow2(255).sub(&Nat::from_u64(19)), Nat::pow2(128)] }
+pub fn num_alts() -> Vec<Nat> { vec![Nat::zero(), Nat::from_u64(0x7f), Nat::from_u64(0x80), Nat::from_u64(0xff), Nat::from_u64(0x100), Nat::pow2(64), Nat::pow2(255), Nat::pow2(256).sub(&Nat::from_u64(1)),
+    // not representable as doubles: 2^53+1, 13.37 ether + 1 wei, 2^64-1
+    Nat::from_u64(9007199254740993), Nat::from_u64(13370000000000000001), Nat::from_u64(u64::MAX)] }
+pub fn chain_alts() -> Vec<Nat> { let w = |k: usize, d: i64| { let base = Nat::pow2(k).sub(&Nat::from_u64(36)).divrem_small(2).0; if d >= 0 { base.add(&Nat::from_u64(d as u64)) } else { base.sub(&Nat::from_u64((-d) as u64)) } }; let _ = &w; vec![Nat::zero(), Nat::from_u64(1), Nat::from_u64(0x7f), Nat::from_u64(0x80), Nat::pow2(32), Nat::pow2(64).sub(&Nat::from_u64(1)), Nat::pow2(255).sub(&Nat::from_u64(19)), Nat::pow2(128),
+    // (2^k - 36) / 2 and its neighbours: v = 35 + 2c + parity crosses the k-bit boundary (k = 8, 16, 32, 64)
+    w(8, 0), w(8, 1), w(16, 0), w(16, 1), w(32, -1), w(32, 0), w(32, 1), w(64, -1), w(64, 0), w(64, 1), w(128, 0), w(128, 1)] }
 pub fn data_alts() -> Vec<Vec<u8>> { vec![vec![0], vec![0x7f], vec![0x80], vec![0x55; 55], vec![0x56; 56], (0..1024).map(|i| i as u8).collect()] }
 pub fn access_alts() -> Vec<Vec<([u8; 20], Vec<[u8; 32]>)>> {
     let a = [0xc1u8; 20]; let b = [0xc2u8; 20]; let s1 = [0u8; 32]; let mut s2 = [0u8; 32]; s2[31] = 7; let s3 = [0xffu8; 32];
@@ -21,9 +25,9 @@ pub fn keys() -> Vec<U256> { vec![U256::from_hex("4f3edf983ac636a65a842ce7c78d9a
 
 /// dimension table for a kind: names and number of values (index 0 = template default)
 pub fn dims(kind: Kind, with_chain: bool) -> Vec<(&'static str, usize)> {
-    let mut d = vec![("nonce", 9), ("gas", 9), ("value", 9), ("to", 4), ("data", 7), ("key", 2), ("tweak", 8), ("spelling", 4)];
-    if kind == Kind::Eip1559 { d.push(("maxPriorityFeePerGas", 9)); d.push(("maxFeePerGas", 9)); } else { d.push(("gasPrice", 9)); }
-    if with_chain || kind != Kind::Legacy { d.push(("chainId", 9)); }
+    let mut d = vec![("nonce", 12), ("gas", 12), ("value", 12), ("to", 4), ("data", 7), ("key", 2), ("tweak", 8), ("spelling", 6)];
+    if kind == Kind::Eip1559 { d.push(("maxPriorityFeePerGas", 12)); d.push(("maxFeePerGas", 12)); } else { d.push(("gasPrice", 12)); }
+    if with_chain || kind != Kind::Legacy { d.push(("chainId", 9 + 12)); }
     if kind != Kind::Legacy { d.push(("accessList", 6)); }
     d
 }
@@ -39,7 +43,7 @@ pub fn build(kind: Kind, with_chain: bool, dm: &[(&'static str, usize)], choice:
             "data" => tx.data = data_alts()[*c - 1].clone(),
             "accessList" => tx.access_list = access_alts()[*c - 1].clone(),
             "key" => key = *c, "tweak" => tweak = *c as u64,
-            "spelling" => spell = [Spell::Auto, Spell::Dec, Spell::Hex, Spell::HexUpper][*c],
+            "spelling" => spell = [Spell::Auto, Spell::Dec, Spell::Hex, Spell::HexUpper, Spell::JsonIntIfU64, Spell::FloatIfExact][*c],
             _ => unreachable!(),
         }
     }
@@ -57,7 +61,7 @@ pub fn run(ctx: &Ctx) {
         let sweep = format!("fields-{kname}");
         ctx.sweep(&sweep, &format!("{kname}: all assignments with <= {d} deviations from a template with pairwise distinct fields over {} dimensions (numeric boundaries 0,0x7f,0x80,0xff,0x100,2^64,2^255,2^256-1; recipient absent/zero/ff; calldata 1B..1KiB; access-list shapes; 2 keys; 4 spellings)", dm.len()), choices.len() as u64, |i| {
             let (tx, key, spell, devs) = build(kind, with_chain, &dm, &choices[i as usize]);
-            let text = txjson::tx_json(&tx, spell).to_text();
+            let text = txjson::tx_json(&tx, spell).reordered(i % 3).to_text(); // key order rotates with the case index
             if let Some(o) = expect_accept(ctx, P, &sweep, i, &format!("{kname},dev={devs}"), &text, &tx, &keys()[key], &curve) { parity[ki][o.odd as usize].fetch_add(1, Ordering::Relaxed); }
         });
     }
